@@ -130,7 +130,8 @@ func (r *guardRec) canon() string {
 	return strings.Join(types, ",") + "|" + canonBody(r.body, r.params)
 }
 
-func printGuards(b *strings.Builder, fn string, recs []*guardRec) {
+func resolveGuards(fn string, fg *fnGuards) {
+	recs := fg.recs
 	bgs := basis[fn]
 	if len(bgs) > 0 {
 		for _, g := range bgs {
@@ -255,8 +256,110 @@ func printGuards(b *strings.Builder, fn string, recs []*guardRec) {
 				pairs = append(pairs, nw+"→"+old)
 			}
 			sort.Strings(pairs)
-			fmt.Fprintf(b, "-- %s: parameters named as in the basis (%s)\n", fn, strings.Join(pairs, ", "))
+			fg.note = fmt.Sprintf("-- %s: parameters named as in the basis (%s)\n", fn, strings.Join(pairs, ", "))
 		}
+	}
+}
+
+type fnGuards struct {
+	fn    string
+	recs  []*guardRec
+	note  string
+	moved []string // definitions carried under a basis name whose guard moved to another function
+}
+
+// aliasMovedGuards: a basis guard of a function that has no counterpart there any more, but whose
+// expression reappears (up to parameter names) in a guard with a FRESH name in the same package — a
+// new helper function, or a new ordinal — has moved (an extracted or inlined helper). It is emitted
+// once more under its basis name and with its basis parameter names, so that the models keep
+// building against the current source's condition. Guards that keep a basis name are never used as
+// the target: the same test in another, unchanged function says nothing about this one.
+func aliasMovedGuards(all []*fnGuards) {
+	if basis == nil {
+		return
+	}
+	present := map[string]bool{}
+	for _, fg := range all {
+		for _, r := range fg.recs {
+			present[r.name] = true
+		}
+	}
+	basisNames := map[string]bool{}
+	for _, gs := range basis {
+		for _, g := range gs {
+			basisNames[g.name] = true
+		}
+	}
+	pkgOf := func(name string) string {
+		if i := strings.IndexByte(name, '_'); i > 0 {
+			return name[:i]
+		}
+		return name
+	}
+	used := map[*guardRec]bool{}
+	byFn := map[string]*fnGuards{}
+	for _, fg := range all {
+		byFn[fg.fn] = fg
+	}
+	var fns []string
+	for fn := range basis {
+		fns = append(fns, fn)
+	}
+	sort.Strings(fns)
+	for _, fn := range fns {
+		for _, g := range basis[fn] {
+			if present[g.name] || strings.HasPrefix(g.canon, "untranslated|") {
+				continue
+			}
+			var target *guardRec
+			for _, fg := range all {
+				if pkgOf(fg.fn) != pkgOf(fn) {
+					continue
+				}
+				for _, r := range fg.recs {
+					if r.comment == "" && !basisNames[r.name] && !used[r] && r.canon() == g.canon {
+						target = r
+						break
+					}
+				}
+				if target != nil {
+					break
+				}
+			}
+			if target == nil {
+				continue
+			}
+			used[target] = true
+			// the body with the basis parameter names
+			ren := map[string]string{}
+			for i, p := range target.params {
+				ren[p] = g.params[i]
+			}
+			body := reIdent.ReplaceAllStringFunc(target.body, func(tok string) string {
+				if q, ok := ren[tok]; ok {
+					return q
+				}
+				return tok
+			})
+			var sb strings.Builder
+			fmt.Fprintf(&sb, "/-- moved: this condition is now `%s` -/\ndef %s", target.name, g.name)
+			for i, p := range g.params {
+				fmt.Fprintf(&sb, " (%s : %s)", p, g.types[i])
+			}
+			fmt.Fprintf(&sb, " : Bool :=\n  %s\n", body)
+			holder := byFn[fn]
+			if holder == nil {
+				holder = all[len(all)-1]
+			}
+			holder.moved = append(holder.moved, sb.String())
+		}
+	}
+}
+
+func printGuards(b *strings.Builder, fg *fnGuards) {
+	recs := fg.recs
+	if fg.note != "" {
+		b.WriteString(fg.note)
 	}
 	for _, r := range recs {
 		if r.comment != "" {
@@ -269,5 +372,8 @@ func printGuards(b *strings.Builder, fn string, recs []*guardRec) {
 			fmt.Fprintf(b, " (%s : %s)", pn, r.ptype[pn])
 		}
 		fmt.Fprintf(b, " : Bool :=\n  %s\n", r.body)
+	}
+	for _, m := range fg.moved {
+		b.WriteString(m)
 	}
 }
